@@ -43,7 +43,11 @@ def histories(run, c):
     pool = list(itertools.islice(con.sample_inputs(c.rng), 14))
     pool += [dict(zip(con.PARAMS, ("S", "x86_64", "a-0:1-1.x86_64", "p/a.rpm", "AA", "binary", "s-0:1-1.src"))),
              dict(zip(con.PARAMS, ("S", "x86_64", "s-0:1-1.src", "p/s.rpm", None, "source", None))),
-             dict(zip(con.PARAMS, ("S", "i386", "a-0:1-1.x86_64.rpm", "p/a.rpm", "bb", "debug", "dir/s-0:1-1.src.rpm")))]
+             dict(zip(con.PARAMS, ("S", "i386", "a-0:1-1.x86_64.rpm", "p/a.rpm", "bb", "debug", "dir/s-0:1-1.src.rpm"))),
+             # several DIFFERENT source packages filed without an explicit srpm_nevra (each under its own name), also across cells
+             dict(zip(con.PARAMS, ("S", "x86_64", "t-0:2-1.src", "p/t.rpm", None, "source", None))),
+             dict(zip(con.PARAMS, ("C", "s390x", "u-1:3-2.nosrc", "p/u.rpm", "cc", "source", None))),
+             dict(zip(con.PARAMS, ("S", "x86_64", "b-0:2-1.noarch", "p/b.rpm", None, "binary", "t-0:2-1.src.rpm")))]
     n = 0
     fails = []
     L_ = 2 if run.tier == "quick" else 3
